@@ -29,7 +29,7 @@ EXPECTED_PROBES = ['multi-buffer', 'padding-in-row', 'digital-line', 'multi-chun
 DTYPES = list(fmt.DAQMX_CODES)
 
 
-def gen_daqmx_spec(rng, max_segments=4, max_channels=5, wide_p=0.06):
+def gen_daqmx_spec(rng, max_segments=4, max_channels=5, wide_p=0.06, wide_digital_p=0.0, nodata_p=0.1):
     g = 'Group'
     names = {'/': [], fmt.quote_path(g): [g]}
     nch = rng.randint(1, max_channels)
@@ -53,6 +53,13 @@ def gen_daqmx_spec(rng, max_segments=4, max_channels=5, wide_p=0.06):
             if kind == 'digital':
                 t = 'u8'
                 off = rng.randint(0, widths[b] * 8 - 1)
+                if wide_digital_p and rng.random() < wide_digital_p:
+                    # a line of a 16, 32 or 64 bit port: the port value is stored in the segment's byte order (only where
+                    # the caller asks for it - C15 - because 'the addressed bit' is then a matter of the byte order)
+                    cands = [x for x in ('u16', 'u32', 'u64', 'i16', 'i32') if fmt.size_of(x) <= widths[b]]
+                    if cands:
+                        t = rng.choice(cands)
+                        off = rng.randint(0, (widths[b] - fmt.size_of(t)) * 8 + 7)
             else:
                 cands = [t for t in DTYPES if fmt.size_of(t) <= widths[b]]
                 t = rng.choice(cands)
@@ -99,7 +106,11 @@ def gen_daqmx_spec(rng, max_segments=4, max_channels=5, wide_p=0.06):
             for c in subset:
                 cnt = rows[c['scalers'][0]['buffer']]
                 L = {'path': c['path'], 'props': []}
-                if restate or c['path'] not in stated:
+                if k > 0 and c['path'] in stated and rng.random() < nodata_p:
+                    # listed with the 'no raw data' header (a property set while logging, a channel that pauses): a later
+                    # 'same as before' refers to the index it had when it last carried data
+                    L['index'] = 'none'
+                elif restate or c['path'] not in stated:
                     stated.add(c['path'])
                     L.update({'index': 'full', 'type': 'daqmx', 'count': cnt,
                               'daqmx': {'kind': c['kind'], 'scalers': c['scalers'], 'widths': list(widths)}})
